@@ -116,6 +116,50 @@ def varsOfStmts : List CStmt → List String
   | s :: ss => varsOfStmt s ++ varsOfStmts ss
 end
 
+/-! abstract cells written by `set_usr_field` (specification-level reading, `ILSem.lean`): compared like registers -/
+def usrCellOf (name : String) (exts : List String) : List String :=
+  match name, exts with
+  | "set_usr_field", [_, fld] => [usrCell fld]
+  | _, _ => []
+
+mutual
+def usrCellsOfExpr : CExpr → List String
+  | .cast _ e => usrCellsOfExpr e
+  | .un _ e => usrCellsOfExpr e
+  | .not e => usrCellsOfExpr e
+  | .bin _ a b => usrCellsOfExpr a ++ usrCellsOfExpr b
+  | .shift _ a b => usrCellsOfExpr a ++ usrCellsOfExpr b
+  | .cmp _ a b => usrCellsOfExpr a ++ usrCellsOfExpr b
+  | .log _ a b => usrCellsOfExpr a ++ usrCellsOfExpr b
+  | .tern c a b => usrCellsOfExpr c ++ usrCellsOfExpr a ++ usrCellsOfExpr b
+  | .macro _ args _ _ => usrCellsOfExprs args
+  | .call _ args _ _ => usrCellsOfExprs args
+  | .stmtexpr _ _ e => usrCellsOfExpr e
+  | .seqexpr name exts args _ val => usrCellOf name exts ++ usrCellsOfExprs args ++ usrCellsOfExpr val
+  | _ => []
+def usrCellsOfExprs : List CExpr → List String
+  | [] => []
+  | a :: as => usrCellsOfExpr a ++ usrCellsOfExprs as
+end
+
+mutual
+def usrCellsOfStmt : CStmt → List String
+  | .decl _ _ (some e) => usrCellsOfExpr e
+  | .assign _ _ e => usrCellsOfExpr e
+  | .store _ e => usrCellsOfExpr e
+  | .ite c t e => usrCellsOfExpr c ++ usrCellsOfStmts t ++ (match e with | some e => usrCellsOfStmts e | none => [])
+  | .for_ _ c _ b => usrCellsOfExpr c ++ usrCellsOfStmts b
+  | .chain _ _ _ e => usrCellsOfExpr e
+  | .jump e => usrCellsOfExpr e
+  | .exprstmt e => usrCellsOfExpr e
+  | .ret e => usrCellsOfExpr e
+  | .vcall name exts args _ => usrCellOf name exts ++ usrCellsOfExprs args
+  | _ => []
+def usrCellsOfStmts : List CStmt → List String
+  | [] => []
+  | s :: ss => usrCellsOfStmt s ++ usrCellsOfStmts ss
+end
+
 def valNat : Val → Nat
   | .bv _ x => x.toNat
   | .bool b => if b then 1 else 0
@@ -124,7 +168,7 @@ def valNat : Val → Nat
 
 /-- First observable difference between the C result and the IL result, if any. -/
 def obsDiff (prog : List CStmt) (c il : MState) : Option String :=
-  let opvars := ((regsOfStmts prog).map (fun (n, k) => opvarOf n k)).eraseDups
+  let opvars := ((regsOfStmts prog).map (fun (n, k) => opvarOf n k) ++ usrCellsOfStmts prog).eraseDups
   let regDiff := opvars.findSome? (fun ov =>
     if c.written ov != il.written ov then some s!"register {ov}: written C={c.written ov} IL={il.written ov}"
     else if c.written ov && c.new ov != il.new ov then some s!"register {ov}: C={c.new ov} IL={il.new ov}"
@@ -146,6 +190,9 @@ def stuckStr : Stuck → String
   | .unbound n => "unbound " ++ n
   | .fuel => "out of fuel"
   | .undef m => "undefined: " ++ m
+
+/-- sub-routines with a specification-level meaning in `execIL` -/
+def specSubs : List String := ["set_usr_field"]
 
 def cfgOfString : String → Cfg
   | "fixed" => Cfg.fixed
@@ -180,6 +227,9 @@ def handleSem (st : DState) : List Sexp → Option Sexp
       | some t =>
         let realEff := effectOfTerm t
         let realStr := (canonTerm realEff.toTerm).render
+        -- `hex_set_usr_field` is read at the level of its specification (`ILSem.lean`), not through its compiled body
+        -- (which stays checked per output)
+        let ilSubs := st.subBodies.filter (fun p => !specSubs.contains p.1)
         -- search: execute both on sampled states
         let run := (List.range n).foldl (fun (acc : Nat × Nat × Option String) i =>
           let (ran, skipped, fail) := acc
@@ -188,7 +238,7 @@ def handleSem (st : DState) : List Sexp → Option Sexp
           match execCHs macroSem csubs 400 prog σ with
           | .error _ => (ran, skipped + 1, none)          -- C side undefined / out of fuel: state not judged
           | .ok σc =>
-            match execIL macroSem st.subBodies 4000 realEff σ with
+            match execIL macroSem ilSubs 4000 realEff σ with
             | .error .fuel => (ran, skipped + 1, none)
             | .error e => (ran + 1, skipped, some s!"state {seed * 1000 + i}: IL gets stuck ({stuckStr e}) where C is defined")
             | .ok σi =>
